@@ -12,3 +12,4 @@ import GoNeat.Props.C09
 import GoNeat.Props.C09Exact
 import GoNeat.Props.C10
 import GoNeat.Props.C15
+import GoNeat.Props.C15Tables
